@@ -331,6 +331,25 @@ def result_exprs(body):
 
 def rule_ends(ctx, R, name, body, setname):
     ins = [m for m in method_calls(body, "insert") if render(strip(m["recv"])) == setname and render(strip(m["args"][0])).replace(" ", "") == "basic_blocks.last().index()"]
+    if not ins:
+        # the same two lines extracted into a private helper: helper(&mut SET, basic_blocks)
+        for c in walk(body):
+            if c["k"] == "Call" and c["func"]["k"] == "Path" and "::" not in c["func"]["path"] and any(render(strip(a)) == setname for a in c["args"]):
+                h = find_fn(LF, c["func"]["path"])
+                if h is None:
+                    continue
+                import sgrep
+                hp = sgrep.params(h)
+                argn = [render(strip(a)) for a in c["args"]]
+                if len(hp) != len(argn) or setname not in argn or "basic_blocks" not in argn:
+                    continue
+                ps, pb = hp[argn.index(setname)], hp[argn.index("basic_blocks")]
+                hins = [m for m in method_calls(h["body"], "insert") if render(strip(m["recv"])) == ps and render(strip(m["args"][0])).replace(" ", "") == "%s.last().index()" % pb]
+                if len(hins) == 1:
+                    cs = [fact_str(x).replace(" ", "") for x in (conditions_to(h["body"], hins[0]) or [])]
+                    outer = [fact_str(x).replace(" ", "") for x in (conditions_to(body, c) or []) if "else_case" not in fact_str(x)]
+                    ctx.check(R, name + "/last-block-when-no-pending-ends", cs == [ps + ".is_empty()"] and not outer, "through helper %s: guard %s, call under %s" % (h["name"], cs, outer), site(LF, c))
+                    return
     if len(ins) != 1:
         ctx.bad(R, name + "/last-block-when-no-pending-ends", "expected exactly one `%s.insert(basic_blocks.last().index())`, found %d" % (setname, len(ins)), None)
         return
